@@ -203,6 +203,7 @@ func runC06(c *Ctx) {
 	transferRelRule(c, "R13")
 	adapterBegunRule(c, "R7")
 	collectorLeavesOnlyWhenNothingIsOwed(c, "R2")
+	decodedEntriesNilChecked(c, "R9")
 }
 
 // ---- who may decrement / increment the counter ------------------------------------------
@@ -1413,7 +1414,7 @@ func (m *tqModel) deliveries() {
 // ---- R11: an object settled without transfer is covered by a reported error -------------------
 
 // Every decrement of the counter that is not a success must be explained on the same path: an
-// error was sent to the queue's error channel, or the 422 flag was raised, or the server
+// error was sent to the queue's error channel, or the server
 // declared that no transfer is needed (no action), or the function goes on to return a
 // non-nil error (which collectBatches reports).
 func (m *tqModel) errorCoverage() {
@@ -1447,13 +1448,8 @@ func (m *tqModel) errorCoverage() {
 						if s, ok := x.(*ssa.Send); ok && IsLoadOfField(s.Chan, "tq.TransferQueue", "errorc") {
 							cov = true
 						}
-						if st, ok := x.(*ssa.Store); ok {
-							if fa, ok := st.Addr.(*ssa.FieldAddr); ok {
-								if _, f := fieldAddrName(fa); f == "unsupportedContentType" {
-									cov = true
-								}
-							}
-						}
+						// (raising the 422 flag only prints a hint at the end: it is not a reported error — the
+						// queue's Errors() stay empty and push exits 0 — so it does not count as coverage)
 						if cc := AsCall(x); cc != nil && CalleeName(cc) == "(*tq.Meter).FinishTransfer" {
 							cov = true
 						}
@@ -1515,7 +1511,7 @@ func (m *tqModel) errorCoverage() {
 					})
 					covered = byReturn && nRet > 0
 				}
-				c.Check(covered, "R11", key, p.InstrPos(in), "an object settled without transfer is covered by a reported error (or success / no action needed / 422 notice)",
+				c.Check(covered, "R11", key, p.InstrPos(in), "an object settled without transfer is covered by a reported error (or success / no action needed)",
 					"an object can be settled (counter decremented) without having been transferred and without any error being reported: the caller sees success although the object was never delivered")
 			}
 		}
